@@ -1094,6 +1094,152 @@ func checkPlanningOrder(c *Ctx, rule string, gen *packages.Package) {
 				}
 				return true
 			})
+			// a map declared outside the loop and handed, by reference, to a builder whose methods the
+			// iteration calls: what one iteration registers there (an import alias) the next one finds taken
+			shared := ""
+			ast.Inspect(rs.Body, func(m ast.Node) bool {
+				cl, ok := m.(*ast.CompositeLit)
+				if !ok {
+					return true
+				}
+				if _, isStruct := info.TypeOf(cl).Underlying().(*types.Struct); !isStruct {
+					return true
+				}
+				for _, el := range cl.Elts {
+					kv, ok := el.(*ast.KeyValueExpr)
+					if !ok {
+						continue
+					}
+					id, ok := ast.Unparen(kv.Value).(*ast.Ident)
+					if !ok {
+						continue
+					}
+					v, _ := info.Uses[id].(*types.Var)
+					if v == nil || v.IsField() || v.Pos() >= rs.Pos() || v.Parent() == gen.Types.Scope() {
+						continue
+					}
+					if _, isMap := v.Type().Underlying().(*types.Map); !isMap {
+						continue
+					}
+					// is the shared map both read and written by the methods of the builder?
+					fld := goan.ExprString(kv.Key)
+					reads, writes := false, false
+					for _, d := range load.AllFuncs(gen) {
+						if d.Recv == nil || d.Body == nil || goan.NamedName(info.TypeOf(d.Recv.List[0].Type)) != goan.NamedName(info.TypeOf(cl)) {
+							continue
+						}
+						ast.Inspect(d.Body, func(k ast.Node) bool {
+							switch x := k.(type) {
+							case *ast.AssignStmt:
+								for _, l := range x.Lhs {
+									if ix, ok := l.(*ast.IndexExpr); ok && goan.LastSel(ix.X) == fld {
+										writes = true
+									}
+								}
+								for _, r := range x.Rhs {
+									if ix, ok := ast.Unparen(r).(*ast.IndexExpr); ok && goan.LastSel(ix.X) == fld {
+										reads = true
+									}
+								}
+							case *ast.RangeStmt:
+								if goan.LastSel(x.X) == fld {
+									reads = true
+								}
+							}
+							return true
+						})
+					}
+					if reads && writes {
+						shared = goan.NamedName(info.TypeOf(cl)) + "." + fld + " ⟸ " + v.Name()
+					}
+				}
+				return true
+			})
+			// first come, first served: a map declared outside the loop is looked up, the answer decides what
+			// the iteration produces, and the iteration stores into the map for the next ones to find
+			if shared == "" {
+				stored := map[types.Object]bool{}
+				ast.Inspect(rs.Body, func(m ast.Node) bool {
+					if as, ok := m.(*ast.AssignStmt); ok {
+						for _, l := range as.Lhs {
+							if ix, ok := l.(*ast.IndexExpr); ok {
+								if id, ok := ast.Unparen(ix.X).(*ast.Ident); ok {
+									if v, _ := info.Uses[id].(*types.Var); v != nil && !v.IsField() && v.Pos() < rs.Pos() {
+										if _, isMap := v.Type().Underlying().(*types.Map); isMap {
+											stored[v] = true
+										}
+									}
+								}
+							}
+						}
+					}
+					return true
+				})
+				ast.Inspect(rs.Body, func(m ast.Node) bool {
+					as, ok := m.(*ast.AssignStmt)
+					if !ok || len(as.Rhs) != 1 || shared != "" {
+						return true
+					}
+					ix, ok := ast.Unparen(as.Rhs[0]).(*ast.IndexExpr)
+					if !ok {
+						return true
+					}
+					id, ok := ast.Unparen(ix.X).(*ast.Ident)
+					if !ok {
+						return true
+					}
+					mv, _ := info.Uses[id].(*types.Var)
+					if mv == nil || !stored[mv] {
+						return true
+					}
+					answers := map[types.Object]bool{}
+					for _, l := range as.Lhs {
+						if lid, ok := l.(*ast.Ident); ok && lid.Name != "_" {
+							if o := info.ObjectOf(lid); o != nil {
+								answers[o] = true
+							}
+						}
+					}
+					// a later condition on the answer that guards a store to something else than the map
+					ast.Inspect(rs.Body, func(k ast.Node) bool {
+						ifs, ok := k.(*ast.IfStmt)
+						if !ok || ifs.Pos() < as.Pos() {
+							return true
+						}
+						uses := false
+						ast.Inspect(ifs.Cond, func(u ast.Node) bool {
+							if uid, ok := u.(*ast.Ident); ok && answers[info.Uses[uid]] {
+								uses = true
+							}
+							return true
+						})
+						if !uses {
+							return true
+						}
+						ast.Inspect(ifs.Body, func(u ast.Node) bool {
+							if bas, ok := u.(*ast.AssignStmt); ok {
+								for _, l := range bas.Lhs {
+									if bix, ok := l.(*ast.IndexExpr); ok {
+										if bid, ok := ast.Unparen(bix.X).(*ast.Ident); ok && info.Uses[bid] == mv {
+											continue
+										}
+									}
+									shared = "first come, first served on " + mv.Name() + ": `" + goan.ExprString(ifs.Cond) + "` decides " + goan.ExprString(l)
+								}
+							}
+							return true
+						})
+						return true
+					})
+					return true
+				})
+			}
+			if shared != "" {
+				hits++
+				c.Bad(rule, fmt.Sprintf("generator.%s › range %s shares a map between its iterations", load.FuncName(fd), goan.ExprString(rs.X)), c.posOf(gen, rs.Pos()),
+					fmt.Sprintf("the loop ranges over a map and its iterations communicate through a map declared outside it (%s): what one iteration registers (a package alias) the following ones find taken, so the aliases — and the generated files — depend on the iteration order (plan over sorted names)", shared))
+				return true
+			}
 			// an addition to the definitions only matters to an iteration that looks at all of them
 			if why == "" || reads == "" {
 				return true
